@@ -315,7 +315,9 @@ def choose_step(rng, w, flavor, last=None):
         # column replacement by attribute with a plain list (right or wrong length), through the plain accessor or the
         # indexed form `<name>__<idx>`
         return {"op": "setattr_list", "t": t, "j": rng.randrange(nc), "indexed": rng.random() < 0.5,
-                "vals": rand_vals(rng, n if rng.random() < 0.6 else rng.choice([n + 1, max(n - 1, 0)]), rng.choice(["int", "str"]))}
+                "vals": rand_vals(rng, n if rng.random() < 0.6 else rng.choice([n + 1, max(n - 1, 0)]), rng.choice(["int", "str"])),
+                # the values as a list, a tuple or a one-shot iterable without len() (generator, map, zip): the length rule is the same
+                "as": rng.choice(["list", "list", "tuple", "gen", "map", "zip", "iter"])}
     if op == "write":
         r = rng.choice(vecs)
         n = len(w.slots[r])
@@ -474,7 +476,19 @@ def run_step(w, st):
                     name = f"{name}{'' if name.endswith('_') else '_'}_{st['j']}"
             if name is None:
                 raise KeyError("no accessor")
-            setattr(t, name, dvs(st["vals"]))
+            vals_ = dvs(st["vals"])
+            how_ = st.get("as", "list")
+            if how_ == "tuple":
+                vals_ = tuple(vals_)
+            elif how_ == "gen":
+                vals_ = (x for x in vals_)
+            elif how_ == "map":
+                vals_ = map(lambda x: x, vals_)
+            elif how_ == "zip":
+                vals_ = (a for a, _b in zip(vals_, vals_))
+            elif how_ == "iter":
+                vals_ = iter(vals_)
+            setattr(t, name, vals_)
         elif op == "write":
             v = st["val"]
             sl[st["r"]][mk_key(st["key"])] = (dv(v[1]) if v[0] == "scalar" else dvs(v[1]))
